@@ -36,6 +36,7 @@ type PathOpts struct {
 	FilterHeavy bool // more filters, more == != && || !
 	RootOmit    bool // allow root-omitted top-level paths
 	MinSteps    int
+	FuncPct     int // chance of each trailing function on the main path (default 45)
 }
 
 // G is a generation context: it hands out each function name at most once per case so
@@ -276,7 +277,11 @@ func (g *G) Path() *Path {
 		p.Steps = append(p.Steps, g.Step(g.O.FilterDepth, true, false))
 	}
 	if g.O.Funcs {
-		p.Steps = g.funcs(p.Steps, 3, 45)
+		pct := g.O.FuncPct
+		if pct == 0 {
+			pct = 45
+		}
+		p.Steps = g.funcs(p.Steps, 3, pct)
 	}
 	if g.O.RootOmit && len(p.Steps) > 0 && omittable(&p.Steps[0]) && g.chance("omitroot", 8) {
 		p.Root = RootOmitted
